@@ -539,4 +539,6 @@ def run(tier):
     from .. import lints as _l
     _l.tail_copy_from_running_pointer(chk, ('src/symcipher/', 'src/hash/'))
     _l.limb_split_consistent(chk, ['src/symcipher/'])
+    from .. import siblings as _sib
+    _sib.check_group(chk, 'aes_big/aes_small', floor=8)
     return chk.finish()
